@@ -6,7 +6,7 @@
    explicit hypotheses (sanity re-lex succeeds, the echo writer's last chunk is not empty, echo_stable). *)
 From PV Require Import Base.Prelude Model.P8File Spec.P8Format Spec.P8FileSpec
   Proofs.P8FileWrite Proofs.P8FileRoundtrip Proofs.P8FileRewrite
-  Generated.T_lexer Model.Lexer Model.EchoWriter Proofs.LexerChunk Proofs.EchoStable Proofs.P8FileLua.
+  Generated.T_lexer Model.Lexer Model.EchoWriter Proofs.LexerChunk Proofs.EchoStable Proofs.P8FileLua Spec.LuaLex Proofs.P8FileLuaDialect.
 
 Section C03.
 Variable lua : Type.
@@ -91,6 +91,41 @@ Theorem C03_roundtrip_lexer_full : forall (c : lex_cart),
     (no_lone_cr_newline l' -> lex_write (norm_cart (list tok) c l') = Ok file).
 Proof. exact p8_roundtrip_lexer_full. Qed.
 Print Assumptions C03_roundtrip_lexer_full.
+
+(* ... and for carts whose code was lexed from a byte text of the REFERENCE DIALECT (Spec/LuaLex.v), split after
+   line feeds: no side condition about carriage returns at all - the text the echo writer yields for a source of the
+   dialect is again in the dialect (C06_relex_reference / C06_echo_in_dialect), so the re-read cart is again such a
+   cart (from_dialect is inherited: the round trip can be iterated) and re-writing it gives the identical file,
+   unconditionally.  Hypotheses left: the cart is well formed and no echoed line reads as a section header. *)
+Theorem C03_roundtrip_lexer_dialect : forall (c : lex_cart),
+  wf_cart (list tok) echo c -> from_dialect c ->
+  code_in_format (concat (echo (c_lua c))) = true ->
+  exists file l',
+    lex_write c = Ok file /\
+    lex_read file = Ok (norm_cart (list tok) c l') /\
+    concat (echo l') = supply_nl (concat (echo (c_lua c))) /\
+    lex_write (norm_cart (list tok) c l') = Ok file /\
+    from_dialect (norm_cart (list tok) c l').
+Proof. exact p8_roundtrip_lexer_dialect. Qed.
+Print Assumptions C03_roundtrip_lexer_dialect.
+
+(* non-vacuity: a cart lexed from CRLF source lines with a re-spelled string, glyph bytes in a comment and no final
+   newline meets the hypotheses *)
+Definition ex_lines : list (list Z) := [[45; 45; 32; 128; 255; 13; 10]; unBS "s=""a\65"" print(s)"%bs].
+Definition ex_lcart : lex_cart :=
+  {| c_version := 41; c_lua := match model_lex ex_lines with Ok ts => ts | Err _ => [] end;
+     c_gfx := repeat 7 (Z.to_nat 8192); c_label := Some (repeat 1 (Z.to_nat 8192));
+     c_gff := repeat 255 256; c_map := repeat 3 (Z.to_nat 4096); c_sfx := repeat 9 4352;
+     c_music := repeat 200 256 |}.
+Example C03_dialect_nonvacuous :
+  from_dialect ex_lcart /\ code_in_format (concat (echo (c_lua ex_lcart))) = true /\
+  concat (echo (c_lua ex_lcart)) = [45; 45; 32; 128; 255; 13; 10] ++ unBS "s=""aA"" print(s)"%bs /\
+  match lex_write ex_lcart with Ok f => match lex_read f with Ok c' => c_version c' =? 41 | Err _ => false end | Err _ => false end = true.
+Proof.
+  split; [|vm_compute; repeat split; reflexivity].
+  exists ex_lines. split; [repeat constructor; exists [45; 45; 32; 128; 255; 13]; reflexivity|].
+  split; [apply all_bytes_Forall; vm_compute; reflexivity|]. split; [vm_compute; discriminate | vm_compute; reflexivity].
+Qed.
 
 (* non-vacuity: with the identity lexer, a concrete cart (glyph bytes in a comment, no final newline,
    a label) meets every hypothesis *)
